@@ -18,6 +18,8 @@ from liquid2.builtin import Identifier
 from liquid2.builtin import parse_parameters
 from liquid2.builtin import parse_positional_and_keyword_arguments
 from liquid2.builtin import parse_string_or_identifier
+from liquid2.exceptions import LiquidInterrupt
+from liquid2.exceptions import LiquidSyntaxError
 from liquid2.undefined import Undefined
 from liquid2.undefined import is_undefined
 
@@ -184,7 +186,11 @@ class CallNode(Node):
             carry_loop_iterations=True,
         )
 
-        return macro.block.render(macro_context, buffer)
+        try:
+            return macro.block.render(macro_context, buffer)
+        except LiquidInterrupt as err:
+            # A macro body is not part of the loop it is called from.
+            raise LiquidSyntaxError(f"unexpected '{err}'", token=self.token) from err
 
     async def render_to_output_async(
         self,
@@ -223,7 +229,11 @@ class CallNode(Node):
             carry_loop_iterations=True,
         )
 
-        return await macro.block.render_async(macro_context, buffer)
+        try:
+            return await macro.block.render_async(macro_context, buffer)
+        except LiquidInterrupt as err:
+            # A macro body is not part of the loop it is called from.
+            raise LiquidSyntaxError(f"unexpected '{err}'", token=self.token) from err
 
     def macro_args(self, macro: Macro) -> BoundArgs:
         """Bind this call's arguments to macro parameter names."""
